@@ -274,6 +274,15 @@ impl<'i> Attributes<'i> {
         };
         let base = self.source_byte_offset;
         self.attribute_buffer.iter().map(move |a| {
+            // NOTE: an attribute without a value has an unset (`0..0`) value range;
+            // report an empty range right after its name for it, rather than
+            // an offset that is unrelated to the attribute.
+            let value_start = if a.value.start == 0 {
+                a.name.end
+            } else {
+                a.value.start
+            };
+
             Attribute::new(
                 self.input
                     .opt_slice(Some(a.name))
@@ -287,7 +296,7 @@ impl<'i> Attributes<'i> {
                     .opt_slice(Some(a.raw_range))
                     .unwrap_or_else(cant_fail),
                 self.encoding,
-                NonZero::new(base + a.value.start).map(|val| (base + a.name.start, val)),
+                NonZero::new(base + value_start).map(|val| (base + a.name.start, val)),
             )
         })
     }
